@@ -415,6 +415,98 @@ theorem lock_discipline (s : St) (h : model.Reachable init s) :
     obtain ⟨e1, e2, e3⟩ := he.vdisc x hx hv
     exact ⟨e1, e2, by rw [hl.chainOf_eq]; exact e3⟩
 
+/-! ### The window between the marking store and the unlink store -/
+
+/-- Every marked node on the chain has been marked by a thread that has not yet executed its unlink store. -/
+def Win (s : St) (L : List Nat) : Prop := ∀ a, a ∈ L → s.mark a = true → ∃ t, pcWin (s.pc t) = some a
+
+theorem pcWin_spec {pc : PC} {a : Nat} (h : pcWin pc = some a) : ∃ o p nx r, pc = .eUn o p a nx r := by
+  cases pc <;> simp_all [pcWin]
+
+theorem win_apply {s s' : St} {t : Tid} {a : Act} {o : Obs} {L : List Nat} (hl : SInvL s L) (hw : Win s L)
+    (hap : model.apply s t a = some (s', o)) : ∃ L', SInvL s' L' ∧ Win s' L' := by
+  cases a with
+  | invoke op =>
+    simp only [Model.apply, model, Option.map_eq_some_iff] at hap
+    obtain ⟨s1, hs1, heq⟩ := hap
+    simp only [Prod.mk.injEq] at heq
+    obtain ⟨rfl, -⟩ := heq
+    obtain ⟨h1, h2⟩ := sinvl_invoke hl hs1
+    refine ⟨L, h1, ?_⟩
+    intro x hx hm
+    rw [h2.mark] at hm
+    obtain ⟨t2, ht2⟩ := hw x hx hm
+    have hne : t2 ≠ t := by intro e; rw [e, h2.was] at ht2; simp [pcWin] at ht2
+    exact ⟨t2, by rw [h2.frame t2 hne]; exact ht2⟩
+  | step =>
+    simp only [Model.apply, model, Option.map_eq_some_iff] at hap
+    obtain ⟨⟨s1, e⟩, hs1, heq⟩ := hap
+    simp only [Prod.mk.injEq] at heq
+    obtain ⟨rfl, -⟩ := heq
+    obtain ⟨L', hl', he⟩ := sinvl_step hl hs1
+    refine ⟨L', hl', ?_⟩
+    intro x hx hm
+    have hxL : x ∈ L := by
+      rcases he.grow x hx with h | h
+      · exact h
+      · rw [hm] at h; simp at h
+    cases hm0 : s.mark x with
+    | true =>
+      obtain ⟨t2, ht2⟩ := hw x hxL hm0
+      have hne : t2 ≠ t := by intro e; rw [e] at ht2; exact he.wout x ht2 hx
+      exact ⟨t2, by rw [he.frame t2 hne]; exact ht2⟩
+    | false =>
+      obtain ⟨o', p', nx', -, e2, -, -⟩ := he.marks x hm0 hm
+      exact ⟨t, by simp [e2, pcWin]⟩
+  | ret =>
+    simp only [Model.apply, model, Option.map_eq_some_iff] at hap
+    obtain ⟨⟨s1, r⟩, hs1, heq⟩ := hap
+    simp only [Prod.mk.injEq] at heq
+    obtain ⟨rfl, -⟩ := heq
+    obtain ⟨h1, hd, -, hfr, -, -, h6, -, -, -⟩ := sinvl_result hl hs1
+    refine ⟨L, h1, ?_⟩
+    intro x hx hm
+    rw [h6] at hm
+    obtain ⟨t2, ht2⟩ := hw x hx hm
+    have hne : t2 ≠ t := by intro e; rw [e, hd] at ht2; simp [pcWin] at ht2
+    exact ⟨t2, by rw [hfr t2 hne]; exact ht2⟩
+
+theorem swin_reachable (s : St) (h : model.Reachable init s) : ∃ L, SInvL s L ∧ Win s L :=
+  model.inv_reachable (fun s => ∃ L, SInvL s L ∧ Win s L) init
+    ⟨[0, 1], sinv_init, fun a _ hm => by simp [init] at hm⟩
+    (fun _ _ _ _ _ hi hap => by obtain ⟨L, h1, h2⟩ := hi; exact win_apply h1 h2 hap) s h
+
+/-- The words in memory differ from the logical chain only inside an eraser's window: a marked node that is still on
+    the chain has been marked by a thread that is between its marking store and its unlink store — it holds the locks
+    of the node and of its unmarked predecessor `p`, whose word still points to the node. -/
+theorem window (s : St) (h : model.Reachable init s) (a : Nat) (ha : a ∈ chainOf s) (hm : s.mark a = true) :
+    ∃ t o p nx r, s.pc t = .eUn o p a nx r ∧ s.next p = some a ∧ s.mark p = false ∧ s.succ a = nx := by
+  obtain ⟨L, hl, hw⟩ := swin_reachable s h
+  rw [hl.chainOf_eq] at ha
+  obtain ⟨t, ht⟩ := hw a ha hm
+  obtain ⟨o, p, nx, r, hpc⟩ := pcWin_spec ht
+  have h1 := hl.unmP t p (by simp [hpc, knowUnmP])
+  have h2 := hl.link t p a (by simp [hpc, knowLink])
+  exact ⟨t, o, p, nx, r, hpc, by rw [hl.agree p h1]; exact h2, h1, (hl.eun t o p a nx r hpc).1⟩
+
+/-- Under the two locks, the two `is_marked()` tests of `validate` are implied by its pointer comparison: if
+    `pPred->m_pNext` is the unmarked pointer to `pCur`, then `pCur` is unmarked as well.  (So a `validate` without
+    these tests behaves the same; such a change is visible in the trace only.) -/
+theorem validate_marks_redundant (s : St) (h : model.Reachable init s) (t : Tid) (o : OpK) (p c : Nat)
+    (hpc : s.pc t = .v1 o p c) (h1 : s.next p = some c) (h2 : s.mark p = false) : s.mark c = false := by
+  obtain ⟨L, hl, hw⟩ := swin_reachable s h
+  have hprev := hl.lkPrev t p (by simp [hpc, pcPrev])
+  have hpL : p ∈ L := hprev.2.resolve_right (by simp [h2])
+  obtain ⟨-, hcL, -⟩ := hl.next_mem hpL h2 h1
+  cases hm : s.mark c with
+  | false => rfl
+  | true =>
+    obtain ⟨t2, ht2⟩ := hw c hcL hm
+    obtain ⟨o2, p2, nx2, r2, hpc2⟩ := pcWin_spec ht2
+    have := hl.mCC t t2 c (by simp [hpc, heldC]) (by simp [hpc2, heldC])
+    subst this
+    rw [hpc] at hpc2; simp at hpc2
+
 /-- Refinement on `absMap`: in a reachable state, the step at which thread `t` fixes its result `r` is the `Spec.map`
     transition of `t`'s operation with result `r` from the abstract map before the step to (a representation of) the
     abstract map after the step; every other step leaves the abstract map unchanged.  A step that fixes the result of
